@@ -41,6 +41,9 @@ type scen struct {
 	DiscStyle         string `json:"discstyle"`
 	EarlyData         int    `json:"earlydata"`
 	NoiseBeforeBuffer bool   `json:"noisebeforebuffer"`
+	TrailingSpace     bool   `json:"trailingspace"`
+	// StalledListener: the application has asked for state notifications (TNC.ListenEnabled) and never reads them
+	StalledListener bool `json:"stalledlistener"`
 }
 
 func guard(f func()) (pan string) {
@@ -94,7 +97,7 @@ func runScenario(sc scen) []rec.Event {
 	}
 	sim.CRCFaults = 0
 	sim.BufferAfter = sc.Buffers
-	sim.DiscStyle, sim.NoiseBeforeBuffer = sc.DiscStyle, sc.NoiseBeforeBuffer
+	sim.DiscStyle, sim.NoiseBeforeBuffer, sim.TrailingSpace = sc.DiscStyle, sc.NoiseBeforeBuffer, sc.TrailingSpace
 	if sc.EarlyData > 0 {
 		sim.EarlyData = pattern(49, sc.EarlyData)
 	}
@@ -120,6 +123,7 @@ func runScenario(sc scen) []rec.Event {
 	}
 	ptt := &pttRec{}
 	tnc.SetPTT(ptt)
+
 	var conn net.Conn
 	if sc.Kind == "listen" {
 		var ln net.Listener
@@ -160,6 +164,9 @@ func runScenario(sc scen) []rec.Event {
 		}
 	}
 
+	if sc.StalledListener {
+		_ = tnc.ListenEnabled() // state notifications asked for after the connection is up; never drained, never closed
+	}
 	var accepted []byte
 	if sc.Kind == "outbound" {
 		sim.mu.Lock()
@@ -711,6 +718,27 @@ func Main(args []string) int {
 	mk(func(s *scen) { s.Kind = "inbound"; s.Frames = []int{20, 30}; s.ReadBuf = 4096; s.EarlyData = 25 })
 	mk(func(s *scen) { s.Kind = "inbound"; s.Frames = []int{7}; s.ReadBuf = 5; s.EarlyData = 300 })
 	mk(func(s *scen) { s.Kind = "outbound"; s.Writes = []int{40, 50, 60}; s.NoiseBeforeBuffer = true })
+	mk(func(s *scen) { s.Kind = "outbound"; s.Writes = []int{50, 60}; s.TrailingSpace = true })
+	mk(func(s *scen) {
+		s.Kind = "inbound"
+		s.Frames = []int{10, 20}
+		s.ReadBuf = 64
+		s.Noise = true
+		s.TrailingSpace = true
+	})
+	mk(func(s *scen) {
+		s.Kind = "outbound"
+		s.Writes = []int{50, 60}
+		s.CRCFaults = 1
+		s.StalledListener = true
+	})
+	mk(func(s *scen) {
+		s.Kind = "outbound"
+		s.Writes = []int{70}
+		s.CRCFaults = 2
+		s.StalledListener = true
+		s.NoiseBeforeBuffer = true
+	})
 	mk(func(s *scen) { s.Kind = "listen"; s.Frames = []int{40, 400}; s.ReadBuf = 4096 })
 	mk(func(s *scen) { s.Kind = "listen"; s.Frames = []int{40, 400}; s.ReadBuf = 64; s.Noise = true })
 	for i := 0; i < *n; i++ {
